@@ -217,6 +217,22 @@ def r6_probability(ctx, res):
         res.find(key, ic.module.loc(ic.node), 'information_content is no longer -log(synset_probability(synset, freq))')
 
 
+def r7_cache_purity(ctx, res):
+    """the hypernym cache shared by all words of the corpus holds, for a synset, all of its hypernyms - not a list filtered
+    by the state of the walk that happened to fill it."""
+    from .c16 import memo_purity
+    n = memo_purity(ctx, res, only_module='ic')
+    f = _compute(ctx)
+    key = 'hypernym-cache-scope'
+    creat = [x for x in walk_no_nested(f.node) if isinstance(x, (ast.Assign, ast.AnnAssign))
+             and norm(x.targets[0] if isinstance(x, ast.Assign) else x.target) == 'hypernym_cache']
+    res.inst(key, f.module.loc(f.node), f'{n} memo sites; cache created at {[c.lineno for c in creat]}')
+    if n < 1:
+        # without a cache the walk must call hypernyms() directly
+        if '.hypernyms()' not in norm(f.node):
+            res.find(key, f.module.loc(f.node), 'compute() neither caches nor queries hypernyms')
+
+
 RULES = [
     ('C15-R1', r1_once_per_node, 3),
     ('C15-R2', r2_pos_folding, 3),
@@ -224,4 +240,5 @@ RULES = [
     ('C15-R4', r4_weight, 3),
     ('C15-R5', r5_initialize, 2),
     ('C15-R6', r6_probability, 2),
+    ('C15-R7', r7_cache_purity, 1),
 ]
